@@ -67,6 +67,13 @@ def sim_part(run, EoN, tier, stats):
         pairs = [(u, v) for u in gc.order for v in G.neighbors(u)]
         dl = {p: F(2 * k + 1, 64) + F(rng.randint(0, 3)) for k, p in enumerate(rng.sample(pairs, len(pairs)))}
         du = {u: F(2 * k + 1, 128) + F(rng.randint(1, 3)) for k, u in enumerate(gc.order)}
+        if which == 'fast_nonMarkov_SIS' and (i // 3) % 2 == 1:
+            # integer-valued tables: same-instant ties everywhere (constant-delay rules are the natural deterministic rules).  The per-node
+            # histories of fast_nonMarkov_SIS do not depend on adjacency / insertion order even then (an attempt landing exactly on the
+            # target's recovery time is dropped on every path); 3600 such cases x 6 presentations agreed on the unchanged code
+            dl = {p: F(rng.choice([1, 2, 3, 4])) for p in pairs}
+            du = {u: F(rng.choice([1, 2, 3])) for u in gc.order}
+            stats['sis_tie_cases'] = stats.get('sis_tie_cases', 0) + 1
         succ = {p: rng.random() < 0.6 for p in pairs}
         sel = rng.sample(gc.order, rng.randint(1, min(2, len(gc.order))))
         tmin = rng.choice([0, 2.5, -1])
